@@ -2,6 +2,8 @@ CONSTANTS
   N = 6
   K = 0
   Coupled = FALSE
+  B = 0
+  HCap = 0
 SPECIFICATION Spec
 INVARIANT NoDeadlock
 PROPERTIES AllComplete
